@@ -64,7 +64,7 @@ func runC01x(c ProgCase) (*vstat.Failure, c01Result) {
 			res.outside = out
 			return nil, res
 		}
-		v.ProcessLogLine(nil, hx.Line(l.File, l.Text))
+		hx.Run(v, l.File, l.Text)
 		want := ref.Dump()
 		if want != prev {
 			res.matched = true
